@@ -203,6 +203,18 @@ struct OpEnumerator
         add(base, T_MESSAGE, M_SIZE_BYTES_CURSOR, 0, N, "cursor_traversal+size_bytes(m,c)");
         add(base, T_MESSAGE, M_VISIT_FULL, 0, N, "visit(full depth)");
         level(f.root, {}, sh.levels[(std::size_t)f.root.level].name);
+        // every op again through View<const Byte> converted from the mutable view (mutating ops report
+        // "unsupported" there and are skipped): the conversion must carry the bounds along
+        const std::size_t n0 = out.size();
+        for(std::size_t i = 0; i < n0; i++)
+        {
+            if(out[i].rq.target == T_MESSAGE || out[i].rq.target == T_GROUP_AT_P) continue;
+            if(!out[i].rq.path.empty() && out[i].rq.path.size() > 1) continue; // root and first-level entries
+            OpSpec c = out[i];
+            c.rq.via_const_view = true;
+            c.label += " [const view]";
+            out.push_back(c);
+        }
     }
 };
 
